@@ -250,7 +250,7 @@ Qed.
 (* ---- the invariant ------------------------------------------------------------ *)
 Theorem dev_step_ok : forall d e, dev_ok d -> dev_ok (fst (dev_step d e)).
 Proof.
-  intros d e Hd. destruct e as [m er idx|m|receiver counter c|to e ts idx|to e ts idx| |receiver nonce c|new]; cbn [dev_step].
+  intros d e Hd. destruct e as [m er idx|m|receiver counter c|to e ts idx|to e ts idx| |receiver nonce c|new|secs]; cbn [dev_step].
   - (* EInit *)
     destruct (negb (check_mac1 (d_static d) (init_body m) (i_mac1 m))); [exact Hd|].
     destruct (consume_init (d_static d) (hs_list d) false m) as [[pid h1]|] eqn:Ec; [|exact Hd].
@@ -319,6 +319,9 @@ Proof.
     unfold slots_ok. cbn [previous current next].
     split; [exact (okp_ok_mono _ _ _ _ _ Hi Sp)|].
     split; apply okp_ok_expire; [exact (okp_ok_mono _ _ _ _ _ Hi Sc)|exact (okp_ok_mono _ _ _ _ _ Hi Sn)].
+  - (* EAge *)
+    cbn [fst]. unfold dev_ok, hist in *. cbn [d_static d_peers d_olds]. rewrite Forall_forall in *.
+    intros q Hq. apply in_map_iff in Hq. destruct Hq as (p & <- & Hin). exact (Hd p Hin).
 Qed.
 
 Theorem no_session_with_stranger : forall (d : dev) (evs : list ev),
@@ -418,7 +421,7 @@ Qed.
 Theorem dev_step_view : forall d e k, NoDup (ids d) ->
   view (fst (dev_step d e)) k = view d k /\ ids (fst (dev_step d e)) = ids d.
 Proof.
-  intros d e k Hn. destruct e as [m er idx|m|receiver counter c|to e ts idx|to e ts idx| |receiver nonce c|new]; cbn [dev_step].
+  intros d e k Hn. destruct e as [m er idx|m|receiver counter c|to e ts idx|to e ts idx| |receiver nonce c|new|secs]; cbn [dev_step].
   - (* EInit *)
     destruct (negb (check_mac1 (d_static d) (init_body m) (i_mac1 m))); [split; reflexivity|].
     destruct (consume_init (d_static d) (hs_list d) false m) as [[pid h1]|] eqn:Ec; [|split; reflexivity].
@@ -484,6 +487,11 @@ Proof.
     cbn [fst]. unfold view, ids. cbn [d_peers]. split.
     + induction (d_peers d) as [|a r IH]; cbn [map get_peer]; [reflexivity|].
       cbn [rekey_peer upd p_id]. destruct (Nat.eqb (p_id a) k); [reflexivity|]. apply IH.
+    + rewrite map_map. reflexivity.
+  - (* EAge *)
+    cbn [fst]. unfold view, ids. cbn [d_peers]. split.
+    + induction (d_peers d) as [|a r IH]; cbn [map get_peer]; [reflexivity|].
+      cbn [age_peer p_id]. destruct (Nat.eqb (p_id a) k); [reflexivity|]. apply IH.
     + rewrite map_map. reflexivity.
 Qed.
 
@@ -552,3 +560,25 @@ Proof.
     apply Nat.eqb_eq in E. exfalso. exact (H2 p Hin E). }
   reflexivity.
 Qed.
+
+(* A received cookie is used for CookieRefreshTime only: once it is older, AddMacs
+   leaves MAC2 zero again ("absent a cookie"), for initiations and responses alike,
+   until another authentic cookie reply arrives. *)
+Lemma expired_cookie_not_held p c age : p_cookie p = Some (c, age) -> CookieRefreshTimeSecs <= age -> held_cookie p = None.
+Proof.
+  intros H Ha. unfold held_cookie. rewrite H.
+  replace (age <? CookieRefreshTimeSecs)%N with false; [reflexivity|]. symmetry. apply N.ltb_ge. exact Ha.
+Qed.
+
+Theorem expired_cookie_zero_mac2 : forall d p e ts idx c age,
+  p_cookie p = Some (c, age) -> (CookieRefreshTimeSecs <= age)%N ->
+  forall to m, In (OInit to m) (snd (send_initiation d p e ts idx)) -> i_mac2 m = TZero.
+Proof.
+  intros d p e ts idx c age Hc Ha to m Hin. unfold send_initiation in Hin.
+  rewrite (expired_cookie_not_held p c age Hc Ha) in Hin.
+  destruct (create_init (d_static d) (p_hs p) e ts idx) as [[h' m0]|]; cbn [snd] in Hin; [|contradiction].
+  destruct Hin as [Hin|[]]. inversion Hin; subst. reflexivity.
+Qed.
+
+Lemma age_accumulates secs p c age : p_cookie p = Some (c, age) -> p_cookie (age_peer secs p) = Some (c, (age + secs)%N).
+Proof. intros H. unfold age_peer. cbn [p_cookie]. now rewrite H. Qed.
